@@ -187,6 +187,9 @@ type Action struct {
 	DocOfSelf bool `json:"doc_of_self,omitempty"`
 	// AskDocOfFieldTypes: like DocOfFieldTypes, but the answers are thrown away (nothing is rendered)
 	AskDocOfFieldTypes bool `json:"ask_doc_of_field_types,omitempty"`
+	// FieldTypeIDs: render the type of every field of the struct through snippet.ID (`var _ <type>`), the way
+	// generators that re-declare or copy fields do
+	FieldTypeIDs bool `json:"field_type_ids,omitempty"`
 	// Recovered: text rendered through a template that ends in an unbound name: the render panics after it
 	// yielded this text, and the generator recovers from the panic and carries on (a legal thing to do)
 	Recovered string `json:"render_that_panics_and_is_recovered,omitempty"`
@@ -412,6 +415,13 @@ func (in *inst) generate(gen string, c gengo.Context, named *types.Named) error 
 				c.Render(snippet.Block("func helper_" + gen + "() {}\n"))
 			}
 			c.Render(snippet.Block(fmt.Sprintf("const N_%s_%s = %d // seen=%d\n", typ, gen, in.counter, len(in.seen))))
+		}
+	}
+	if a.FieldTypeIDs && named.TypeParams().Len() == 0 { // (fields of generic declarations mention free type parameters: not closed types)
+		if st, ok := named.Underlying().(*types.Struct); ok {
+			for i := 0; i < st.NumFields(); i++ {
+				c.RenderT(fmt.Sprintf("var _ft%d_%s_%s @t\n", i, typ, gen), snippet.IDArg("t", st.Field(i).Type()))
+			}
 		}
 	}
 	if a.LocateSelf {
@@ -676,6 +686,15 @@ type Spec struct {
 	Real []string `json:"real,omitempty"`
 	// RealFirst lists the repository's generators BEFORE the scripted ones
 	RealFirst bool `json:"real_first,omitempty"`
+	// AfterLoad: file operations (paths relative to Dir) applied AFTER NewContext returned and BEFORE Execute starts
+	AfterLoad []FileOp `json:"after_load,omitempty"`
+}
+
+// FileOp writes (or removes) one file.
+type FileOp struct {
+	Path    string `json:"path"`
+	Content string `json:"content,omitempty"`
+	Remove  bool   `json:"remove,omitempty"`
 }
 
 type Outcome struct {
@@ -785,6 +804,15 @@ func Exec(spec Spec) (out Outcome) {
 			out.LoadErr = err.Error()
 			finished = true
 			return
+		}
+		for _, op := range spec.AfterLoad {
+			f := filepath.Join(spec.Dir, op.Path)
+			if op.Remove {
+				os.Remove(f)
+			} else {
+				os.MkdirAll(filepath.Dir(f), 0o755)
+				os.WriteFile(f, []byte(op.Content), 0o644)
+			}
 		}
 		if err := ex.Execute(context.Background(), gens...); err != nil {
 			out.Err = err.Error()
